@@ -3,6 +3,8 @@ package main
 import (
 	"encoding/json"
 	"fmt"
+	neatmath "github.com/yaricom/goNEAT/v4/neat/math"
+	"github.com/yaricom/goNEAT/v4/neat/network"
 	"math"
 	"math/big"
 	"sort"
@@ -37,6 +39,7 @@ type c19Champ struct {
 	Age      *int    `json:"species_age"` // nil: organism without species
 	Hidden   int     `json:"hidden_nodes"`
 	Disabled int     `json:"disabled_gene_mask"`
+	Mods     int     `json:"modules,omitempty"` // enabled modules (two inputs, one output each) on top of the plain genome
 }
 
 type c19GenIn struct {
@@ -652,6 +655,23 @@ func c19Genome(hidden, disabledMask, id int) (*genetics.Genome, int) {
 	return readPlain(sb.String(), id), 3 + hidden + enabled
 }
 
+// c19WithModules adds k enabled modules (control node with two incoming links and one outgoing link): the
+// expressed network gains one node and three links per module
+func c19WithModules(g *genetics.Genome, cx int, k int) (*genetics.Genome, int) {
+	if k <= 0 {
+		return g, cx
+	}
+	var mods []*genetics.MIMOControlGene
+	for m := 0; m < k; m++ {
+		cn := network.NewNNode(100+m, network.HiddenNeuron)
+		cn.ActivationType = neatmath.MultiplyModuleActivation
+		cn.Incoming = append(cn.Incoming, network.NewLink(1.0, g.Nodes[0], cn, false), network.NewLink(1.0, g.Nodes[1], cn, false))
+		cn.Outgoing = append(cn.Outgoing, network.NewLink(1.0, cn, g.Nodes[2], false))
+		mods = append(mods, genetics.NewMIMOGene(cn, int64(1000+m), 0, true))
+	}
+	return genetics.NewModularGenome(g.Id, g.Traits, g.Nodes, g.Genes, mods), cx + 4*k
+}
+
 type c19Built struct {
 	exp    *experiment.Experiment
 	champs [][]*genetics.Organism // [trial][generation], nil when absent
@@ -673,6 +693,7 @@ func c19Build(in *c19ExpIn) *c19Built {
 				Fitness:  c19Place(g.Fitness, true), Age: c19Place(g.Age, true), Complexity: c19Place(g.Complexity, true)}
 			if g.Champ != nil {
 				genome, cx := c19Genome(g.Champ.Hidden, g.Champ.Disabled, gid)
+				genome, cx = c19WithModules(genome, cx, g.Champ.Mods)
 				gid++
 				org, err := genetics.NewOrganism(g.Champ.Fit, genome, gi)
 				if err != nil {
@@ -1015,7 +1036,7 @@ func c19ExpOracle(in *c19ExpIn, o c19ExpObs) (fails []Failure, anyNil bool) {
 				if g.Champ.Age != nil {
 					ca[gi] = float64(*g.Champ.Age)
 				}
-				cx := 3 + g.Champ.Hidden
+				cx := 3 + g.Champ.Hidden + 4*g.Champ.Mods // a module adds its control node and three links
 				for i := 0; i < 2+2*g.Champ.Hidden; i++ {
 					if g.Champ.Disabled&(1<<uint(i)) == 0 {
 						cx++
@@ -1202,7 +1223,7 @@ func c19ExpOracle(in *c19ExpIn, o c19ExpObs) (fails []Failure, anyNil bool) {
 			if g.Champ.Age != nil {
 				age = float64(*g.Champ.Age)
 			}
-			cx := 3 + g.Champ.Hidden
+			cx := 3 + g.Champ.Hidden + 4*g.Champ.Mods
 			for i := 0; i < 2+2*g.Champ.Hidden; i++ {
 				if g.Champ.Disabled&(1<<uint(i)) == 0 {
 					cx++
@@ -1443,6 +1464,9 @@ func c19GenExp(r *Run) *c19ExpIn {
 			}
 			if !(nilChamps && rng.Intn(3) == 0) {
 				ch := &c19Champ{Fit: math.Round(rng.Float64()*1600) / 100, Hidden: rng.Intn(4)}
+				if rng.Intn(5) == 0 {
+					ch.Mods = 1 + rng.Intn(2)
+				}
 				if tieFitness {
 					ch.Fit = float64(rng.Intn(3))
 				}
@@ -1469,7 +1493,7 @@ func c19GenExp(r *Run) *c19ExpIn {
 // ---------- (c) Generation.FillPopulationStatistics ----------
 
 func c19ChampCplx(c c19Champ) int {
-	cx := 3 + c.Hidden
+	cx := 3 + c.Hidden + 4*c.Mods
 	for i := 0; i < 2+2*c.Hidden; i++ {
 		if c.Disabled&(1<<uint(i)) == 0 {
 			cx++
